@@ -819,6 +819,29 @@ class ImplGen(ImplGraph):
         return " ; ".join(out)
 
 
+    def cmd_genh(self, ts):
+        xs = [int(t) for t in ts]
+        j1, j2, m1, m2, d1, d2, al, rc, k1, k2, h, n = xs[:12]
+        draws = xs[12:]
+        g = GeneralInstanceGenerator(num_jobs=(j1, j2), num_machines=(m1, m2), duration_range=(d1, d2),
+                                     allow_less_jobs_than_machines=bool(al), allow_recirculation=bool(rc),
+                                     machines_per_operation=(k1, k2), name_suffix="verif", iteration_limit=n)
+        g.rng = ScriptedRng(draws)
+        self.last_gen = (g, [])
+        out = []
+        try:
+            ops = []
+            for _ in range(h):
+                op = g.create_random_operation()
+                ops.append(",".join(map(str, op.machines)) + f":{op.duration}")
+            for inst in g:
+                self.last_gen[1].append(inst)
+                out.append(f"{inst.name.rsplit('_', 1)[1]} {fmt_instance(inst)}")
+        except (ValueError, IndexError):
+            return "raise"
+        return "ops " + " ".join(ops) + " ; " + " ; ".join(out)
+
+
 # ----------------------------------------------------------------------------------- Gantt charts and frames (C20)
 import os as _os  # noqa: E402
 import warnings as _warnings  # noqa: E402
